@@ -232,7 +232,7 @@ func (nr *NativeRunner) confirm(v *Violation) {
 		}
 	}
 	switch {
-	case res.Diverged != "":
+	case res.Diverged != "" && fail == "" && res.Panic == "" && res.crash == "":
 		v.Confirmed, v.NativeOut = "not-reproduced", "native run diverged: "+res.Diverged
 	case isPanic && (res.Panic != "" || res.crash != ""):
 		v.Confirmed, v.NativeOut = "reproduced", res.Panic+res.crash
